@@ -56,7 +56,10 @@ def build(spec):
         return scen, cfg
     if kind == "generated":
         params = dict(spec["params"])
-        if params.get("address_space_bounds") is not None:
+        if params.get("address_space_bounds") is not None and \
+                params.get("seed", 0) % 2 == 0:
+            # the documented type is "tuple/list of length 2": every other
+            # parameter set passes a tuple, the others keep the list
             params["address_space_bounds"] = tuple(
                 params["address_space_bounds"])
         st = np.random.get_state()
@@ -237,7 +240,7 @@ def draw_spec(rng, mix=None):
             return {"kind": "genbench",
                     "name": rng.choice(GEN_BENCH[:5] * 4 + GEN_BENCH[5:7]),
                     "seed": rng.randint(0, 10 ** 6)}
-        p = gen_params(rng, max_hosts=40)
+        p = gen_params(rng, max_hosts=50)
         return {"kind": "generated", "params": p}
     if kind == "yaml":
         doc = docgen.gen_doc(rng, big=rng.random() < 0.05)
